@@ -494,7 +494,10 @@ impl<'a> FmtVisitor<'a> {
             return Some(format!("{fn_str} {{}}"));
         }
 
-        if !self.config.fn_single_line() || !is_simple_block_stmt(&context, block, None) {
+        if !self.config.fn_single_line()
+            || !is_simple_block_stmt(&context, block, None)
+            || last_line_contains_single_line_comment(fn_str)
+        {
             return None;
         }
 
